@@ -3,7 +3,7 @@ from ..gens import *
 
 ID = "C05"
 LEAN_MODULE = "Ucfg.Props.C05"
-LEVEL_TEXT = 'Normalisation theorems for primitives and for combining duplicate definitions; representation erasure and partial flattenings are decided by the correspondence over 8 Go representations with permuted map orders (partial).'
+LEVEL_TEXT = 'Normalisation theorems for primitives and for combining duplicate definitions, and the lift newFrom_then_reify: for every plain input map (scalars, non-empty lists and string-keyed maps nested to any depth, keys that are single path segments and all different, no variable expansion) NewFrom followed by the generic reify returns exactly the view `expect` written on the data alone (entries sorted by key, positive integers unsigned, durations / regexps as text) - mutual induction over the data (norm_expect), sorted dictionaries, the merge into the empty config as a deep copy (mergeDictP_sorted, reifyP_cpy); representation erasure and partial flattenings are decided by the correspondence over 8 Go representations with permuted map orders (partial).'
 CORRESPONDENCE = "Normalize.newFrom/normValue/setField/combineV ~ ucfg.NewFrom"
 RULE = ("plain data trees (depth <= 5, 5-key alphabet, nil/empty containers) in up to 8 Go representations of the same tree "
         "(map[string]interface{}, map[interface{}]interface{}, typed maps/slices, [N]T, pointers, alternating pointer/interface layers, reflect.StructOf structs with tags, "
